@@ -1,6 +1,7 @@
 """Worker process: runs every K-th case of a property under the passive monitors."""
 import json
 import os
+import re
 import sys
 import time
 import traceback
@@ -42,6 +43,7 @@ _lines = {}       # relfile -> set(lines)
 _funcs = set()    # "relfile:qualname"
 _raises = Counter()
 _raise_log = []   # per-case list, reset by run_one
+_undefined = {}   # mech -> message: NameError / UnboundLocalError / AttributeError on a lena module
 
 TOOL = 3
 
@@ -69,6 +71,21 @@ def _install_monitors():
             rel = fn[len(REPO) + 1:]
             _raises["%s@%s:%s" % (name, rel, code.co_qualname)] += 1
             _raise_log.append((name, rel, code.co_qualname, str(exc)[:200]))
+            # references to undefined names, wherever they are raised (property C20 reads
+            # this list when it replays the other properties' workloads)
+            if name in ("NameError", "UnboundLocalError"):
+                msg = str(exc)
+                m = re.search(r"name '(\w+)' is not defined", msg) or \
+                    re.search(r"local variable '(\w+)'", msg)
+                _undefined["undefined-name:%s:%s:%s"
+                           % (rel, code.co_qualname, m.group(1) if m else "?")] = msg[:200]
+            elif name == "AttributeError":
+                msg = str(exc)
+                m = re.match(r"(?:partially initialized )?module '(lena[.\w]*)' has no "
+                             r"attribute '(\w+)'", msg)
+                if m:
+                    _undefined["unresolved-attribute:%s:%s:%s.%s"
+                               % (rel, code.co_qualname, m.group(1), m.group(2))] = msg[:200]
 
     mon.register_callback(TOOL, E.LINE, on_line)
     mon.register_callback(TOOL, E.RAISE, on_raise)
@@ -243,6 +260,7 @@ def main(argv):
         "funcs": sorted(_funcs), "raises": _raises,
         "harness_errors": harness_errors, "extra": extra,
         "max_case_s": round(max_case_s, 3),
+        "undefined_names_raised": _undefined,
     }
     with open(out, "w") as f:
         json.dump(res, f, default=repr)
